@@ -10,7 +10,7 @@ PROP = {
         job("server-send", "core", "./server/", "server",
             ["harness/core/server/c05_send_test.go"], "^TestVerifC05ServerSend$", ["server-send"]),
         job("client-send", "core", "./client/", "client",
-            ["harness/core/client/c05_send_test.go"], "^TestVerifC05ClientSend$", ["client-send"]),
+            ["harness/core/client/c05_send_test.go"], "^TestVerifC05Client", ["client-send", "client-session"]),
     ],
     "parallel": 3,
     "min_events": 1000,
@@ -23,7 +23,11 @@ PROP = {
              "and duplicates into one Defragger. server-send / client-send: the real send paths "
              "(sendMessageAutoFrag, udpConn.Send) against a fake IO answering DatagramTooLargeError with limits at/around "
              "the header size, tiny budgets (>255 fragments) and realistic ones; whatever left must fit the limit and "
-             "reassemble (sent order and shuffled) to exactly the original, or nothing was delivered. A case is non-trivial when the message was actually split "
+             "reassemble (sent order and shuffled) to exactly the original, or nothing was delivered. client-session: 4..11 "
+             "messages through ONE udpConn, most needing the same fragment count, some cut short mid-send (send "
+             "error on a later fragment, datagram limit shrinking between two fragments); all datagrams that left "
+             "go in order into one far-side Defragger: every emission must be a message handed to Send and every "
+             "completely sent message must be delivered once. A case is non-trivial when the message was actually split "
              "(>=2 fragments); distinct = distinct (sizes, arrival order)."),
     "assumptions": [
         "concurrent messages carry distinct packet IDs (precondition stated by the property)",
